@@ -99,6 +99,31 @@ int main(int argc, char** argv) {
         else { Status s = a->solve(); std::printf(s == PIQP_UNSOLVED ? "F5: ok\n" : "F5: unexpected status\n"); }
         // (the object is deliberately not destroyed: its Eigen members were constructed over dirty memory only for scalars)
     }
+    if (which == "F11" || which == "all") {
+        // info.sigma is never written for a problem without inequalities/bounds: depends on memory content
+        double sig[2];
+        for (int k = 0; k < 2; k++) {
+            void* mem = std::malloc(sizeof(DenseSolver<double>));
+            std::memset(mem, k == 0 ? 0x11 : 0x77, sizeof(DenseSolver<double>));
+            DenseSolver<double>* a = new (mem) DenseSolver<double>;
+            a->setup(q.P, q.c, q.A, q.b);
+            a->solve();
+            sig[k] = a->result().info.sigma;
+        }
+        if (std::memcmp(&sig[0], &sig[1], sizeof(double)) != 0) std::printf("F11: DEFECT info.sigma of an equality-only problem depends on previous memory content: %g vs %g\n", sig[0], sig[1]);
+        else std::printf("F11: ok\n");
+    }
+    if (which == "F12" || which == "all") {
+        // rejected setup() on a set-up solver: c of wrong size for a 2x2 problem
+        DenseSolver<double> a, t;
+        a.setup(q.P, q.c, q.A, q.b, q.G, q.h, q.lb, q.ub); t.setup(q.P, q.c, q.A, q.b, q.G, q.h, q.lb, q.ub);
+        M P2 = M::Identity(2, 2);
+        a.setup(P2, q.c);   // rejected: c has 3 entries
+        Status sa = a.solve(), st = t.solve();
+        if (sa != st || !same(a.result().x, t.result().x))
+            std::printf("F12: DEFECT rejected setup(P 2x2, c of size 3) changed later results: status %d vs twin %d, x size %ld vs %ld\n", sa, st, (long) a.result().x.size(), (long) t.result().x.size());
+        else std::printf("F12: ok\n");
+    }
     if (which == "F9") {
         // sparse: update(A') with the same nnz but a different pattern is accepted; run under ASan
         SparseSolver<double, int> a;
